@@ -104,10 +104,11 @@ def applicable(sc, action):
     return [pw for pw, acts in sc["passwd"] if action in acts or "all" in acts]
 
 
-def the_password(sc, action):
-    """a configured real password for the action, for building 'right' requests"""
+def the_password(sc, action, real_only=True):
+    """a configured real password for the action; with real_only=False the first configured token, keyword or not
+    (a 'right' request then supplies the literal text of the cachemgr_passwd line, e.g. "disable")"""
     for pw in applicable(sc, action):
-        if pw not in ("disable", "none"):
+        if pw not in ("disable", "none") or not real_only:
             return pw
     return None
 
@@ -162,7 +163,7 @@ def build(sc, rq, port):
         name = action + "x"
     elif nf == "trailing-slash":
         name = action + "/"
-    right = the_password(sc, action) or "secret"
+    right = the_password(sc, action) or the_password(sc, action, False) or "secret"
     kind, var = rq["auth"]
     pw = {"right": right, "wrong": "wrongpw", "right+x": right + "x", "right-1": right[:-1], "upper": right.upper(), "empty": "",
           "disable": "disable", "none": "none", "other": "s3cr3t" if right != "s3cr3t" else "secret"}.get(var, "")
